@@ -1,8 +1,9 @@
 /-
 Hand-written executable model of the temperature bookkeeping of a binary KWN run
-(kawin/precipitation/KWNEuler.py: `_createLookupBinary` 200-, `setup` 257-, `_growthRateBinary` 527-,
-the rebuild branches of `_updateParticleSizeDistribution` 610-; kawin/precipitation/KWNBase.py:
-`setup` 483-499, `preProcess`, `_calculateDependentTerms` 549-572, `postProcess`).
+(kawin/precipitation/KWNEuler.py: `_createLookupBinary` 200-247, `setup` 263-301, `_growthRateBinary`
+536-552, the rebuild branches of `_updateParticleSizeDistribution` 630-675; kawin/precipitation/KWNBase.py:
+`setup` 483-499, `preProcess` 539-547, `_calculateDependentTerms` 549-572, `postProcess` 595-631;
+function names are the anchor, line numbers as of /repo 842c14c).
 Core Lean only; generic scalar.
 
 What is tracked is *at which temperature* every piece of tabulated data was computed:
@@ -55,7 +56,7 @@ structure LOld (α : Type) where
   tabT : List α
   dTemp : α
 
-/-- 533-539 as they were: `dTemp += T - Trec`; `|dTemp| > max` → rebuild at `T` (dTemp KEPT);
+/-- `_growthRateBinary` as it was (before /repo 842c14c): `dTemp += T - Trec`; `|dTemp| > max` → rebuild at `T` (dTemp KEPT);
 else hand out the recorded `xEq` and RESET `dTemp`. -/
 def growthOld (max : α) (s : LOld α) (T Trec eqRec : α) : LOld α × Obs α :=
   let d := s.dTemp + (T - Trec)
@@ -131,7 +132,7 @@ inductive Op (α : Type) where
 
 variable {σ : Type}
 
-/-- `KWNBase.setup` (498) + `PrecipitateModel.setup` (272-295): `time[0] = 0` from
+/-- `KWNBase.setup` (498) + `PrecipitateModel.setup` (263-301): `time[0] = 0` from
 `PrecipitationData.reset`; the lookup is built at `pData.temperature[0]`, its `xEq` stored in slice 0;
 then `_growthRate(Y)` with `Y.temperature = schedule(Y.time)`; `setSlice(Y, 0)`. -/
 def setup (I : Impl α σ) (sched : α → α) : KState α σ :=
